@@ -2,6 +2,7 @@ package jmespath
 
 import (
 	"encoding/json"
+	"math"
 
 	"github.com/woodsbury/decimal128"
 )
@@ -128,4 +129,41 @@ func H_C05_near() {
 		doc = map[string]any{"a": da, "b": db, "s": string(a)}
 	}
 	diffSearch(expr, doc, false)
+}
+
+// H_C05_int64: integers over the whole 64-bit range (as JSON text, as Go
+// int64 and as decimals) through sums, differences and comparisons: results
+// have at most 21 digits, so they are exact; an implementation that adds in
+// machine integers wraps somewhere in this range.
+var c05IntExprs = []string{"sum([a, b])", "sum([a, b, a])", "sum([a, a, b, b])", "avg([a, b])", "a + b", "a - b", "a + b + a", "a - b - b", "-a", "abs(a)", "a < b", "a == b", "max([a, b])", "min([a, b, a])", "ceil(a)", "floor(a)", "sum([a, b]) == a + b", "a + `1`", "a - `1`", "sum([a, `-1`])", "sum([`1`, a, b])"}
+
+func c05IntOperand(name string) any {
+	n := vrtJNum(name, nfInt)
+	k, err := n.Int64()
+	vrtAssume(err == nil)
+	switch vrtChoose(name+"_carrier", 3) {
+	case 0:
+		return n
+	case 1:
+		return k
+	default:
+		return decimal128.FromInt64(k)
+	}
+}
+
+func H_C05_int64() {
+	vrtNumRange(math.MinInt64, math.MaxInt64)
+	expr := c05IntExprs[vrtChoose("expr", len(c05IntExprs))]
+	vrtNote("template:" + expr)
+	doc := map[string]any{"a": c05IntOperand("a"), "b": c05IntOperand("b")}
+	got, err := Search(expr, doc)
+	want, ec := refSearch(expr, doc)
+	if ec == ecUnspecified {
+		return
+	}
+	vrtAssert(ec == ecNone && err == nil, "integer arithmetic within 21 digits cannot fail")
+	if err != nil || ec != ecNone {
+		return
+	}
+	vrtAssert(refEqual(got, want), "result is not the exact integer result")
 }
